@@ -27,6 +27,7 @@ import (
 	"github.com/fabiolb/fabio/noroute"
 	"github.com/fabiolb/fabio/proxy"
 	"github.com/fabiolb/fabio/registry/consul"
+	"github.com/fabiolb/fabio/registry/file"
 	"github.com/fabiolb/fabio/route"
 	"github.com/fabiolb/fabio/transport"
 	"github.com/hashicorp/consul/api"
@@ -703,6 +704,16 @@ func equalStrings(a, b []string) bool {
 var useActive atomic.Bool
 
 // A request without a route gets the configured status and page; no upstream is contacted.
+var (
+	fileDirOnce sync.Once
+	fileDirPath string
+)
+
+func fileDir() string {
+	fileDirOnce.Do(func() { fileDirPath, _ = os.MkdirTemp("", "c07file") })
+	return fileDirPath
+}
+
 func TestC07NoRoute(t *testing.T) {
 	c := getChain()
 	var cur atomic.Value
@@ -745,8 +756,28 @@ func TestC07NoRoute(t *testing.T) {
 		}
 		status := rapid.SampledFrom([]int{0, 404, 503, 418, 999, 100000, -1, 200}).Draw(t, "status")
 		cur.Store(status)
-		page := rapid.SampledFrom([]string{"", "<html>no route</html>", "plain text", strings.Repeat("x", 5000)}).Draw(t, "page")
-		noroute.SetHTML(page)
+		page := rapid.SampledFrom([]string{"", "<html>no route</html>", "plain text", strings.Repeat("x", 5000),
+			"<html>no route</html>\n", "\n\n <p>nothing here</p> \n", "<pre>\r\n  gone\r\n</pre>\r\n", "\tindented"}).Draw(t, "page")
+		if rapid.IntRange(0, 2).Draw(t, "page-from-a-file") == 0 && page != "" {
+			// the page as the file backend delivers it (registry.backend=file, registry.file.noroutehtmlpath)
+			dir := fileDir()
+			rp, hp := filepath.Join(dir, "routes.txt"), filepath.Join(dir, "noroute.html")
+			os.WriteFile(rp, []byte("route add svc only.example/only http://"+c.upHost()+"/\n"), 0o600)
+			os.WriteFile(hp, []byte(page), 0o600)
+			be, err := file.NewBackend(&config.File{RoutesPath: rp, NoRouteHTMLPath: hp})
+			if err != nil {
+				t.Fatalf("file backend: %v", err)
+			}
+			select {
+			case delivered := <-be.WatchNoRouteHTML():
+				noroute.SetHTML(delivered) // what main.go's watchNoRouteHTML does with it
+			case <-time.After(5 * time.Second):
+				t.Fatalf("the file backend delivered no no-route page")
+			}
+			hx.Class("noroute-page-delivered-by-the-file-backend")
+		} else {
+			noroute.SetHTML(page)
+		}
 		defer noroute.SetHTML("")
 		q := genClientReq(t, routeSpec{path: "/"})
 		before := atomic.LoadInt64(&c.hits)
